@@ -65,36 +65,47 @@ Theorem C02_sqlite_laws : refl_laws sqlite_driver /\ sim_laws sqlite_driver sqli
 Proof. exact (conj sqlite_refl_laws sqlite_sim_laws). Qed.
 
 (** 1e. "the diff with a deep copy is empty" at full strength (only the generic
-    well-formedness) is FALSE for the SQLite differ.  The model has no pointers, so
+    well-formedness) is still FALSE for the SQLite differ, after the fixes of
+    FindGeneratedIndex (99ad7b6) and Normalize (5832478).  The model has no pointers, so
     [SchemaDiff D skip s s] is the diff of [s] with a field-wise equal copy.
-    Witness 1: the inspected autoindex of a UNIQUE constraint (origin "u") is dropped
-    and re-added under its normalized name.  Reproduced on the Go code (harness class
-    "witness", known finding C02-sqlite-autoindex-copy-not-empty) and through the CLI:
-    [atlas schema diff --from sqlite://y.db --to sqlite://y.db] on a database created
-    with [CREATE TABLE t (c int UNIQUE)] plans DROP INDEX / CREATE UNIQUE INDEX.
-    (With the very same Go graph on both sides the diff IS empty, because Normalize
-    renames the shared index object on "both" sides at once.) *)
+    Witness: the autoindex of a UNIQUE column (origin "u") next to a user index that
+    already carries the normalized name t_c: Normalize gives the desired side two indexes
+    called t_c and the user's index is compared with the renamed autoindex (ChangeUnique).
+    Reproduced on the Go code (harness class "witness", known finding
+    C02-sqlite-autoindex-name-collision) and through the CLI:
+    [CREATE TABLE t (c int UNIQUE); CREATE INDEX t_c ON t(c)], then
+    [atlas schema diff --from sqlite://w6.db --to sqlite://w6.db] plans a rebuild of t. *)
 Theorem C02_copy_empty_refuted :
   exists s, NoDup (map t_name (s_tables s)) /\ (forall t, In t (s_tables s) -> wf_table t) /\
             SchemaDiff sqlite_driver no_skip s s <> Some [].
 Proof.
-  exists w_schema1. split; [repeat constructor; simpl; tauto|]. split.
-  - intros t [<-|[]]. exact w_table1_wf.
-  - rewrite w_schema1_diff. discriminate.
+  exists w_schema6. split; [repeat constructor; simpl; tauto|]. split.
+  - intros t [<-|[]]. exact w_table6_wf.
+  - rewrite w_schema6_diff. discriminate.
 Qed.
 
-(** Witness 2: two foreign keys of the same shape with different symbols yield an
-    AddForeignKey (the inner loop of Normalize has no break).  Reproduced on the Go code
-    and through the CLI (known finding C02-sqlite-same-shape-fks-copy-not-empty). *)
-Theorem C02_copy_empty_refuted_fk :
-  exists s, NoDup (map t_name (s_tables s)) /\ (forall t, In t (s_tables s) -> wf_table t) /\
-            (forall t, In t (s_tables s) -> idx_norm_stable (t_idx t)) /\
-            SchemaDiff sqlite_driver no_skip s s <> Some [].
+(** The two former witnesses (fixed upstream of this model) are now empty: the inspected
+    autoindex alone, and two foreign keys of the same shape in the same order. *)
+Theorem C02_copy_empty_fixed :
+  SchemaDiff sqlite_driver no_skip w_schema1 w_schema1 = Some [] /\
+  SchemaDiff sqlite_driver no_skip w_schema2 w_schema2 = Some [].
+Proof. exact (conj w_schema1_diff w_schema2_diff). Qed.
+
+(** "... or with the same objects listed in another order is empty" is FALSE for SQLite:
+    two foreign keys of the same shape with different ON DELETE, listed in the other order,
+    are paired crosswise by Normalize (first unused match by shape) and both come out as
+    ModifyForeignKey.  Reproduced on the Go code (known finding
+    C02-sqlite-same-shape-fks-reordered). *)
+Theorem C02_perm_empty_refuted_fk :
+  exists s s', NoDup (map t_name (s_tables s)) /\ (forall t, In t (s_tables s) -> wf_table t) /\
+               (forall t, In t (s_tables s) -> idx_norm_stable (t_idx t)) /\
+               schema_perm s s' /\ SchemaDiff sqlite_driver no_skip s s' <> Some [].
 Proof.
-  exists w_schema2. split; [repeat constructor; simpl; tauto|]. split; [|split].
-  - intros t [<-|[]]. exact w_table2_wf.
+  exists w_schema3, w_schema3p. split; [repeat constructor; simpl; tauto|]. split; [|split; [|split]].
+  - intros t [<-|[]]. exact w_table3_wf.
   - intros t [<-|[]] i [].
-  - rewrite w_schema2_diff. discriminate.
+  - exact w_schema3_perm.
+  - rewrite w_schema3_diff. discriminate.
 Qed.
 
 (** 1f. What does hold for SQLite (self, copy and every permutation). *)
@@ -453,7 +464,8 @@ Print Assumptions C02_copy_empty.
 Print Assumptions C02_perm_empty.
 Print Assumptions C02_sqlite_laws.
 Print Assumptions C02_copy_empty_refuted.
-Print Assumptions C02_copy_empty_refuted_fk.
+Print Assumptions C02_copy_empty_fixed.
+Print Assumptions C02_perm_empty_refuted_fk.
 Print Assumptions C02_copy_empty_except.
 Print Assumptions C02_exact_columns.
 Print Assumptions C02_exact_indexes_partial.
